@@ -1214,8 +1214,20 @@ class SamplingOperator(Operator):
         else:
             raise RuntimeError('bad variant {!r}'.format(self.variant))
 
-        return WeightedSumSamplingOperator(self.domain, self.sampling_points,
-                                           variant)
+        adjoint = WeightedSumSamplingOperator(self.domain,
+                                              self.sampling_points, variant)
+
+        # The variants are adjoint to each other if the inner product of the
+        # domain is weighted with the cell volume, otherwise the ratio of
+        # the two has to be accounted for.
+        ratio = (getattr(self.domain, 'cell_volume', 1.0) /
+                 _inner_product_weights(self.domain))
+        if not np.isscalar(ratio):
+            return OperatorLeftVectorMult(adjoint, ratio)
+        elif ratio != 1.0:
+            return ratio * adjoint
+        else:
+            return adjoint
 
     def __repr__(self):
         """Return ``repr(self)``."""
@@ -1359,8 +1371,16 @@ class WeightedSumSamplingOperator(Operator):
 
     def _call(self, x):
         """Sum all values if indices are given multiple times."""
-        y = np.bincount(self._indices_flat, weights=x,
-                        minlength=self.range.size)
+        if self.domain.is_complex:
+            # `np.bincount` only supports real weights
+            x = x.asarray()
+            y = (np.bincount(self._indices_flat, weights=x.real,
+                             minlength=self.range.size) +
+                 1j * np.bincount(self._indices_flat, weights=x.imag,
+                                  minlength=self.range.size))
+        else:
+            y = np.bincount(self._indices_flat, weights=x,
+                            minlength=self.range.size)
 
         out = y.reshape(self.range.shape)
 
@@ -1413,7 +1433,17 @@ class WeightedSumSamplingOperator(Operator):
             raise RuntimeError('The variant "{!r}" is not yet supported'
                                ''.format(self.variant))
 
-        return SamplingOperator(self.range, self.sampling_points, variant)
+        adjoint = SamplingOperator(self.range, self.sampling_points, variant)
+
+        # See `SamplingOperator.adjoint`
+        ratio = (_inner_product_weights(self.range) /
+                 getattr(self.range, 'cell_volume', 1.0))
+        if not np.isscalar(ratio):
+            return OperatorRightVectorMult(adjoint, ratio)
+        elif ratio != 1.0:
+            return adjoint * ratio
+        else:
+            return adjoint
 
     def __repr__(self):
         """Return ``repr(self)``."""
